@@ -228,6 +228,16 @@ def _swap_guard_ok(site):
     sides = {("lefts" if ".lefts" in a[1] else "rights") for a in atoms}
     if sides != {"lefts", "rights"}:
         return False
+    # each side's test is about that side AFTER this batch's input was added: reserve.lefts + (what is handed to swap_many as lefts), and likewise for rights
+    # (compared on the expressions: the two totals are folds that print alike)
+    if site.expr is not None and site.expr[0] == "call" and len(site.expr[2]) >= 3:
+        want = {"lefts": q.novers(mir.strip(site.expr[2][1])), "rights": q.novers(mir.strip(site.expr[2][2]))}
+        for a in atoms:
+            side = "lefts" if ".lefts" in a[1] else "rights"
+            adds = []
+            q.contains(a[0] if a[0][0] != "not" else a[0][1], lambda y: (adds.append(y) if q.is_call(y, "saturating_add") and len(y[2]) == 2 else None) and False)
+            if adds and not any(q.novers(mir.strip(x[2][1])) == want[side] or q.novers(mir.strip(x[2][0])) == want[side] for x in adds):
+                return False
     for a in atoms:
         f = force(b, {a[0]: 1})
         if site.bb in f.reach:
